@@ -133,6 +133,8 @@ def expr_py(e) -> str:
         return f"({expr_py(e[1])} is not None)"
     if k == 'isi':
         return f"isinstance({expr_py(e[1])}, {cref_py(e[2])})"
+    if k == 'isl':
+        return f"isinstance({expr_py(e[1])}, (" + ", ".join(cref_py(c) for c in e[2]) + "))"
     if k == 'not':
         return f"(not {expr_py(e[1])})"
     if k == 'and':
@@ -176,6 +178,8 @@ def expr_tok(e, line: int) -> list[str]:
         return [k] + expr_tok(e[1], line)
     if k == 'isi':
         return ['isi'] + expr_tok(e[1], line) + ([e[2][0]] + ([str(e[2][1])] if e[2][0] == 'kc' else []))
+    if k == 'isl':
+        return ['isl'] + expr_tok(e[1], line) + [str(len(e[2]))] + [t for c in e[2] for t in ([c[0]] + ([str(c[1])] if c[0] == 'kc' else []))]
     if k in ('and', 'or'):
         return [k] + expr_tok(e[1], line) + expr_tok(e[2], line)
     if k == 'tup':
@@ -1104,11 +1108,18 @@ class Gen:
         r = self.r
         self.reset_beliefs(ctx)
         x = self.fresh(ctx)
-        if r.random() < 0.6:
+        k = r.random()
+        if k < 0.45:
             it_ty, rng, e = INT, True, self.expr(ctx, INT, 1)
+        elif k < 0.6:
+            it_ty, rng, e = STR, False, self.expr(ctx, STR, 1)          # iterating a str yields str
         else:
-            it_ty = r.choice([INT, STR, BOOL])
-            rng, e = False, ('tup', [self.expr(ctx, it_ty, 1) for _ in range(r.randint(1, 3))])
+            tys = [r.choice([INT, STR, BOOL]) for _ in range(r.randint(1, 3))]   # item type = simplified union of the items
+            rng, e = False, ('tup', [self.expr(ctx, t, 1) for t in tys])
+            uniq = [t for i, t in enumerate(tys) if t not in tys[:i]]
+            if INT in uniq and BOOL in uniq:
+                uniq.remove(BOOL)
+            it_ty = uniq[0] if len(uniq) == 1 else ('U', uniq)
         cb = self.sub_ctx(ctx, {})
         cb['inloop'] = True
         cb['decl'][x] = cb['bel'][x] = it_ty
@@ -1190,6 +1201,20 @@ class Gen:
                 kref = {'i': ('ki',), 'b': ('kb',), 's': ('ks',)}.get(K[0]) or ('kc', K[1])
                 tn = {x: mku(yes)} if yes else {}
                 fn = {x: mku(no)} if no else {}
+                others = [K2 for (x2, K2) in cands if x2 == x and K2 != K]
+                if others and r.random() < 0.4:
+                    # isinstance(x, (K, K2)): an item below one of the targets is kept, else the targets below it replace it
+                    K2 = r.choice(sorted(others, key=repr))
+                    kref2 = {'i': ('ki',), 'b': ('kb',), 's': ('ks',)}.get(K2[0]) or ('kc', K2[1])
+                    yes2, no2 = [], []
+                    for m in members(bel[x]):
+                        if psub(self.p, m, K) or psub(self.p, m, K2):
+                            yes2.append(m)
+                        else:
+                            no2.append(m)
+                            yes2 += [T for T in (K, K2) if psub(self.p, T, m)]
+                    if yes2 and no2:
+                        return ('isl', ('v', x), [kref, kref2]), {x: mku(yes2)}, {x: mku(no2)}
                 if yes and no:
                     return ('isi', ('v', x), kref), tn, fn
         if k < 0.65:
@@ -1492,6 +1517,24 @@ def corpus() -> list[tuple[str, dict, list]]:
             ('wh', ('bin', '<', V(4), V(1)), [('as', 4, ('bin', '+', V(4), ('I', 1))), ('sif', ('isi', V(2), ('ks',)), [('brk',)], []), ('as', 2, ('S', 'w'))],
              [('as', 2, ('N',))]),
             ('ex', ('rev', V(2))), ('ret', ('I', 0))]
+    fbody = [('de', 2, INT, ('I', 0)),
+             ('for', 3, False, V(1), [('aug', 2, '+', ('I', 1)), ('ex', ('rev', V(3)))], []),
+             ('for', 4, False, ('tup', [('I', 1), ('S', 's'), ('B', True)]),
+              [('ex', ('rev', V(4))), ('sif', ('isi', V(4), ('ks',)), [('brk',)], [('aug', 2, '+', V(4))])], [('as', 2, ('I', -1))]),
+             ('ret', V(2))]
+    out.append(("for-str-and-mixed-tuple", {'classes': [], 'funcs': [(1, {'params': [(1, STR)], 'ret': INT, 'body': fbody})]},
+                [(1, [['s', 'ab']]), (1, [['s', '']])]))
+    cA = {'id': 1, 'bases': [], 'mro': [1], 'fields': [], 'methods': []}
+    cA1 = {'id': 2, 'bases': [1], 'mro': [2, 1], 'fields': [], 'methods': []}
+    cA2 = {'id': 3, 'bases': [1], 'mro': [3, 1], 'fields': [], 'methods': []}
+    ibody = [('sif', ('isl', V(1), [('kc', 2), ('ks',)]), [('ex', ('rev', V(1)))], [('ex', ('rev', V(1)))]),
+             ('sif', ('isl', V(2), [('kb',), ('ks',)]), [('ex', ('rev', V(2)))], [('ex', ('rev', V(2)))]),
+             ('sif', ('isl', V(3), [('kc', 2), ('kc', 3)]), [('ex', ('rev', V(3)))], [('ex', ('rev', V(3)))]),
+             ('ret', ('I', 0))]
+    out.append(("isinstance-tuple-of-classes",
+                {'classes': [cA, cA1, cA2],
+                 'funcs': [(1, {'params': [(1, opt(('C', 1))), (2, ('U', [INT, STR, NONE])), (3, ('C', 1))], 'ret': INT, 'body': ibody})]},
+                [(1, [['o', 2, []], ['b', 1], ['o', 3, []]]), (1, [['n'], ['i', 3], ['o', 1, []]]), (1, [['o', 1, []], ['s', 'a'], ['o', 2, []]])]))
     out.append(("for-while-else-break", {'classes': [], 'funcs': [(1, {'params': [(1, INT)], 'ret': INT, 'body': body})]},
                 [(1, [['i', k]]) for k in range(5)]))
     body = [('sif', ('B', True), [('ret', ('I', 1))], [('ret', ('S', 'never checked'))])]
@@ -1520,7 +1563,7 @@ def map_prog(p: dict, fe=None, fs=None) -> dict:
             e = (k, e[1], ex(e[2]), ex(e[3]))
         elif k in ('isn', 'inn', 'not', 'rev'):
             e = (k, ex(e[1]))
-        elif k == 'isi':
+        elif k in ('isi', 'isl'):
             e = (k, ex(e[1]), e[2])
         elif k in ('and', 'or'):
             e = (k, ex(e[1]), ex(e[2]))
@@ -1660,8 +1703,9 @@ UNSUP_REASONS = {
     "4": "partial type / `x = None` widening hack", "5": "name bound only in skipped code",
     "6": "merge validation failed (certifying)", "7": "loop result is not a fixed point of one more pass (certifying)",
     "8": "inferred variable re-inferred with a different type on a later pass (certifying)",
-    "9": "for over str / union / tuple whose items need a join", "10": "finally crossed by break/continue (certifying)",
-    "11": "used-before-def pre-pass", "13": "tuple concatenation / repetition / comparison", "12": "inherited attribute not initialised by __init__"}
+    "9": "for over a union-typed iterable or the empty tuple", "10": "finally crossed by break/continue (certifying)",
+    "11": "used-before-def pre-pass", "13": "tuple concatenation / repetition / comparison",
+    "14": "attribute redeclared under multiple inheritance (immediate bases unknown to the model)", "12": "inherited attribute not initialised by __init__"}
 CAP_KEY = "accept_loop-iteration-cap"
 MI_KEY = "isinstance-union-item-dropped-despite-common-subclass"
 FLAG_KEY = "flag-enum-narrowed-as-closed-set-of-named-members"
